@@ -367,6 +367,8 @@ pub fn format_function_args(
     shape: Shape,
     call_next_node: FunctionCallNextNode,
 ) -> FunctionArgs {
+    #[cfg(feature = "verif-hooks")]
+    crate::verif_hooks::tick();
     match function_args {
         FunctionArgs::Parentheses {
             parentheses,
